@@ -279,7 +279,7 @@ int run()
     auto& E = vx::ev();
     const bool big = vx::thorough();
     setenv("VERIF_JOBS", "1", 1); // NodeClock mock time is process-global
-    int depth = big ? 9 : 7;
+    int depth = big ? 10 : 8;
     if (vx::ctx().args.size() >= 1) depth = atoi(vx::ctx().args[0].c_str());
     if (vx::ctx().args.size() >= 2) NNODE = atoi(vx::ctx().args[1].c_str());
     for (int i = 0; i < 4; i++) {
